@@ -116,7 +116,7 @@ def run(ctx):
                     continue
                 for perm in set(itertools.permutations(range(k))):
                     mods = [[combo[j][0], combo[j][1], j + 1] for j in perm]
-                    check_case(ctx, {"vector": list(vec), "mods": mods, "asm_corr": n % 10 == 0})
+                    ctx.guard(check_case, {"vector": list(vec), "mods": mods, "asm_corr": n % 10 == 0})
                     n += 1
     ctx.extra["cov_exhaustive_multisets_up_to"] = kmax if kmax < 3 else "2 (and 35% of size 3)"
     for _ in range(ctx.budget(800, 30000)):
@@ -134,7 +134,7 @@ def run(ctx):
             mods.append(list(rng.choice(mods)))        # the same object twice
         rng.shuffle(mods)
         lower = [m[2] for m in mods if rng.random() < 0.3] if rng.random() < 0.5 else []
-        check_case(ctx, {"vector": list(vec), "mods": mods, "asm_corr": rng.random() < 0.2, "lower": lower})
+        ctx.guard(check_case, {"vector": list(vec), "mods": mods, "asm_corr": rng.random() < 0.2, "lower": lower})
     # reverse-complementary / equal start overhangs spelt in different cases, in every argument order
     for _ in range(ctx.budget(150, 3000)):
         vec = rng.choice([v for v in VECTORS if v[0] != v[1]])
@@ -142,4 +142,4 @@ def run(ctx):
         b = rng.choice([gen.rc(a) if gen.rc(a) in OVS else a, a, rng.choice(OVS)])
         mods = [[a, rng.choice(OVS), 1], [b, rng.choice(OVS), 2], [vec[0], vec[1], 3]]
         for perm in itertools.permutations(mods):
-            check_case(ctx, {"vector": list(vec), "mods": [list(m) for m in perm], "lower": [rng.choice([1, 2])]})
+            ctx.guard(check_case, {"vector": list(vec), "mods": [list(m) for m in perm], "lower": [rng.choice([1, 2])]})
